@@ -141,5 +141,9 @@ each case makes several parser calls."
     if rep.tier() == vh_core::Tier::Thorough {
         fuzzrun::campaigns(&mut rep);
     }
+    // record files in a node's storage directory are untrusted bytes too; that loader needs the
+    // swarm-driver simulator of vh-store and runs there as a child (built by harness/pre-C17.sh)
+    let exe = rep.cfg.root.join("harness/target/release/vh-store");
+    vh_core::run_child(&mut rep, &exe, "record files of the node store (vh-store child)");
     rep.finish();
 }
